@@ -236,33 +236,48 @@ def theorem_report(prop_file_v, log):
 # ---------------------------------------------------------------------------------------------
 # OCaml runner (extracted models)
 # ---------------------------------------------------------------------------------------------
-def build_runner(timeout=600):
-    """coq/Extract.v writes .build/ocaml/model.ml(i); compile with ocaml/driver.ml -> runner exe"""
+def build_runner(timeout=900):
+    """coq/Extract.v (Separate Extraction) is run in .build/ocaml/x-<hash>; the .ml files are compiled with
+    ocaml/driver.ml into the runner executable."""
     od = os.path.join(BUILD, 'ocaml')
     os.makedirs(od, exist_ok=True)
-    ok, log = coq_build(['Extract.vo'])
+    txt = strip_comments(open(os.path.join(COQ, 'Extract.v')).read())
+    mods = sorted(set(re.findall(r'From Mustache(?:\.\w+)* Require Import ([^.]+)\.', txt)))
+    names = []
+    for m in re.finditer(r'From Mustache(\.\w+)* Require Import ([^.]+)\.', txt):
+        sub = (m.group(1) or '').strip('.')
+        for n in m.group(2).split():
+            names.append((sub + '/' if sub else '') + n + '.vo')
+    ok, log = coq_build(names)
     if not ok:
-        return None, 'extraction failed:\n' + log[-6000:]
+        return None, 'model files failed to build:\n' + log[-6000:]
     with Lock('ocaml'):
-        src_ml = os.path.join(COQ, 'model.ml')
-        if not os.path.exists(src_ml):
-            return None, 'extraction produced no model.ml'
         h = hashlib.sha256()
-        for f in [src_ml, os.path.join(COQ, 'model.mli'), os.path.join(VERIF, 'ocaml', 'driver.ml')]:
+        for f in sorted(glob.glob(os.path.join(COQ, '**', '*.v'), recursive=True)) + [os.path.join(VERIF, 'ocaml', 'driver.ml')]:
             h.update(open(f, 'rb').read())
-        exe = os.path.join(od, 'runner-' + h.hexdigest()[:12])
+        hx = h.hexdigest()[:12]
+        exe = os.path.join(od, 'runner-' + hx)
         if os.path.exists(exe):
             return exe, None
-        for old in glob.glob(os.path.join(od, 'runner-*')):
-            os.remove(old)
-        for f in ('model.ml', 'model.mli'):
-            shutil.copy(os.path.join(COQ, f), os.path.join(od, f))
-        shutil.copy(os.path.join(VERIF, 'ocaml', 'driver.ml'), os.path.join(od, 'driver.ml'))
-        rc, out = sh('ocamlfind ocamlopt -w -a -package zarith -linkpkg model.mli model.ml driver.ml -o runner.tmp 2>&1 ; true '
-                     , cwd=od, timeout=timeout)
-        if not os.path.exists(os.path.join(od, 'runner.tmp')):
+        for old in glob.glob(os.path.join(od, 'runner-*')) + glob.glob(os.path.join(od, 'x-*')):
+            if os.path.isdir(old):
+                shutil.rmtree(old, ignore_errors=True)
+            else:
+                os.remove(old)
+        xd = os.path.join(od, 'x-' + hx)
+        os.makedirs(xd)
+        rc, out = sh(['coqc', '-Q', COQ, 'Mustache', '-o', os.path.join(xd, 'Extract.vo'), os.path.join(COQ, 'Extract.v')],
+                     cwd=xd, timeout=timeout)
+        if rc != 0:
+            return None, 'extraction failed:\n' + out[-6000:]
+        shutil.copy(os.path.join(VERIF, 'ocaml', 'driver.ml'), os.path.join(xd, 'driver.ml'))
+        rc, order = sh('ocamlfind ocamldep -sort *.ml *.mli', cwd=xd, timeout=120)
+        files = [f for f in order.split() if f.endswith('.ml') or f.endswith('.mli')]
+        rc, out = sh(['ocamlfind', 'ocamlopt', '-w', '-a', '-package', 'zarith', '-linkpkg'] + files + ['-o', 'runner.tmp'],
+                     cwd=xd, timeout=timeout)
+        if not os.path.exists(os.path.join(xd, 'runner.tmp')):
             return None, 'ocaml build failed:\n' + out[-6000:]
-        os.rename(os.path.join(od, 'runner.tmp'), exe)
+        os.rename(os.path.join(xd, 'runner.tmp'), exe)
         return exe, None
 
 
